@@ -5,32 +5,34 @@ H = "c19_names_views_scopes"
 SPEC = {
     "runs": [
         # cases 0..2815 of "names" are the completely enumerated sub-space, the rest is seeded
-        run("names", H, "asan", 2816 + 5000, 2816 + 1000000, params={"engine": "names"}),
-        run("views", H, "asan", 4000, 100000, params={"engine": "views"}),
-        run("scopes", H, "asan", 4000, 100000, params={"engine": "scopes"}),
+        run("names", H, "asan", 2816 + 20000, 2816 + 1000000, params={"engine": "names"}),
+        run("views", H, "asan", 8000, 400000, params={"engine": "views"}),
+        run("scopes", H, "asan", 8000, 400000, params={"engine": "scopes"}),
+        # ABI v2: GetTracer/GetMeter take scope attributes, so they become part of the identity and of the rules
+        run("scopes-abi2", H, "asan-abi2", 0, 100000, params={"engine": "scopes"}, tiers=("thorough",)),
     ],
-    # sized from seeds {1,2,3,7,42,1000,65537,2^31-1} on the unchanged+fix tree: every floor is met >= 3x
+    # sized from seeds {1,2,3,7,42,1000,65537,2^31-1} on the unchanged+fixes tree: every floor is met >= 3.9x
     "floors": {
         "quick": {
             # names / units
-            "names_enumerated": 2700, "names_random": 1600, "name_valid_cases": 1000, "name_invalid_cases": 1000,
-            "name_boundary_length_cases": 200, "name_embedded_nul_cases": 100, "unit_invalid_cases": 200,
-            "unit_boundary_length_cases": 150, "streams_of_valid_instruments": 800,
+            "names_enumerated": 2700, "names_random": 6000, "name_valid_cases": 2000, "name_invalid_cases": 2000,
+            "name_boundary_length_cases": 400, "name_embedded_nul_cases": 200, "unit_invalid_cases": 400,
+            "unit_boundary_length_cases": 300, "streams_of_valid_instruments": 1600,
             # views
-            "view_pairs_matching": 800, "view_pairs_matching_by_pattern": 300, "view_pairs_failing_only_type": 800,
-            "view_pairs_failing_only_name": 400, "view_pairs_failing_only_unit": 120,
-            "view_pairs_failing_only_meter-name": 130, "view_pairs_failing_only_meter-version": 90,
-            "view_pairs_failing_only_meter-schema": 90, "instruments_with_two_matching_views": 80,
-            "view_streams_with_filter": 350, "view_streams_with_histogram_config": 60,
-            "view_streams_non_default_aggregation": 400, "view_streams_renamed": 400,
-            "default_view_counter": 400, "default_view_updowncounter": 400, "default_view_histogram": 400,
-            "default_view_observable-counter": 400, "default_view_observable-updowncounter": 400,
-            "default_view_observable-gauge": 400, "collections_delta": 1000, "collections_cumulative": 1000,
+            "view_pairs_matching": 1600, "view_pairs_matching_by_pattern": 600, "view_pairs_failing_only_type": 1600,
+            "view_pairs_failing_only_name": 800, "view_pairs_failing_only_unit": 240,
+            "view_pairs_failing_only_meter-name": 260, "view_pairs_failing_only_meter-version": 180,
+            "view_pairs_failing_only_meter-schema": 180, "instruments_with_two_matching_views": 160,
+            "view_streams_with_filter": 700, "view_streams_with_histogram_config": 120,
+            "view_streams_non_default_aggregation": 800, "view_streams_renamed": 800,
+            "default_view_counter": 800, "default_view_updowncounter": 800, "default_view_histogram": 800,
+            "default_view_observable-counter": 800, "default_view_observable-updowncounter": 800,
+            "default_view_observable-gauge": 800, "collections_delta": 2000, "collections_cumulative": 2000,
             # scopes
-            "rule_lists_where_order_decides": 250, "scopes_disabled_traces": 1500, "scopes_disabled_metrics": 1500,
-            "scopes_disabled_logs": 1500, "scopes_enabled_traces": 2000, "scopes_enabled_metrics": 2000,
-            "scopes_enabled_logs": 2000, "identity_repeat_requests_traces": 1500,
-            "identity_repeat_requests_metrics": 1500, "identity_repeat_requests_logs": 600,
+            "rule_lists_where_order_decides": 500, "scopes_disabled_traces": 3000, "scopes_disabled_metrics": 3000,
+            "scopes_disabled_logs": 3000, "scopes_enabled_traces": 4000, "scopes_enabled_metrics": 4000,
+            "scopes_enabled_logs": 4000, "identity_repeat_requests_traces": 3000,
+            "identity_repeat_requests_metrics": 3000, "identity_repeat_requests_logs": 1200,
         },
         "thorough": {
             "names_enumerated": 2700, "names_random": 300000, "name_boundary_length_cases": 30000,
@@ -62,8 +64,8 @@ SPEC = {
                    "C-string read or a missing copy is an ASan report or a value mismatch."),
     "level_note": ("trusts the recogniser/selector/rule models in harness/c19_names_views_scopes.cc, std::regex of libstdc++ "
                    "for the pattern semantics of name selectors (the model evaluates the same pattern on a terminated copy), "
-                   "gcc ASan/UBSan. Not reached: instrument/view/scope attributes of tracers and meters (ABI v2 only), "
-                   "synchronous Gauge (ABI v2), name selectors differing from instrument names only in case, invalid regex "
+                   "gcc ASan/UBSan. Not reached: scope attributes of tracers and meters in the quick tier (ABI v2 only; run scopes-abi2 of "
+                   "the thorough tier covers them), synchronous Gauge (ABI v2), name selectors differing from instrument names only in case, invalid regex "
                    "patterns, two streams of one meter with the same name, histogram aggregation on observables."),
     "rule": ("run names: case i<256 = the one-byte name chr(i); 256<=i<2816 = the 10-byte name 'aB3_.-/xZ9' with byte "
              "(i-256)/256 replaced by (i-256)%256; i>=2816 = seeded name (valid 1..255, lengths 254/255/256/257/300, empty, "
